@@ -244,6 +244,7 @@ theorem countsLine_parse (n nb : Nat) :
   simp only [parseCounts]
   rw [pySplit_pyStrip, hform, pySplit_tok_segLine _ _ (by intro c hc; simp at hc) _ _ (natStr_tok n)]
   · simp only [List.map_cons, List.map_nil, parseInt_natStr, parseInt_zero, allSome, Option.map_some]
+    rw [if_neg (by omega)]
   · intro p hp
     simp only [List.mem_cons, List.not_mem_nil, or_false] at hp
     rcases hp with rfl | rfl | rfl | rfl
